@@ -1,9 +1,12 @@
 #!/usr/bin/env python3
-"""adopt_seeded.py <PID> <n>: copy a confirmed sub-agent change from /tmp/mut/out/<PID> to /verif/seeded/<PID>-<n>/"""
+"""adopt_seeded.py <PID> <n> [<srcroot> [<as-n>]]: copy a confirmed sub-agent change from <srcroot>/<PID>
+(default /tmp/mut/out) to /verif/seeded/<PID>-<as-n>/ (default <n>)"""
 import json, os, re, shutil, sys
 pid, n = sys.argv[1], sys.argv[2]
-src = f"/tmp/mut/out/{pid}"
-dst = f"/verif/seeded/{pid}-{n}"
+root = sys.argv[3] if len(sys.argv) > 3 else "/tmp/mut/out"
+asn = sys.argv[4] if len(sys.argv) > 4 else n
+src = f"{root}/{pid}"
+dst = f"/verif/seeded/{pid}-{asn}"
 conf = open(f"{src}/confirm{n}.txt").read()
 if "VERDICT: CONFIRMED" not in conf:
     print(f"{pid}-{n}: not confirmed, not adopted"); sys.exit(1)
@@ -17,7 +20,7 @@ head = re.search(r"repo HEAD: (\w+)", conf)
 meta_path = f"{dst}/meta.json"
 old = json.load(open(meta_path)) if os.path.exists(meta_path) else {}
 meta = {
-  "id": f"{pid}-{n}",
+  "id": f"{pid}-{asn}",
   "breaks_property": pid,
   "origin": "fresh sub-agent given only the property text and its own scratch worktree of /repo (nothing from /verif)",
   "what_it_needs_to_manifest": old.get("what_it_needs_to_manifest", "see notes.md (written by the sub-agent)"),
@@ -29,4 +32,6 @@ meta = {
   "detected_by": old.get("detected_by", "pending (see seeded/RESULTS.md)"),
 }
 json.dump(meta, open(meta_path, "w"), indent=1)
-print(f"adopted {pid}-{n}")
+if os.path.exists(f"{src}/features{n}"): shutil.copy(f"{src}/features{n}", f"{dst}/features")
+elif "features protobuf" in notes: open(f"{dst}/features", "w").write("protobuf")
+print(f"adopted {pid}-{asn}")
